@@ -22,7 +22,9 @@ def scenarios(seed, n_random):
 
     def add(name, hb, steps, end, clean=False):
         out.append(dict(id="st-%s-%d" % (name, len(out)), hb=hb, seed=rnd.randint(1, 10**6), steps=sorted(steps, key=lambda s: s["at"]), endMs=end, clean=clean,
-                        timed=not any(st["op"].startswith("block") for st in steps)))
+                        timed=not any(st["op"].startswith("block") for st in steps),
+                        # back-pressure and the big bursts on synchronous in-memory connections (see harness/stack: Pipe)
+                        pipe=any(st["op"].startswith("block") or "burst" in st["op"] for st in steps) and name != "burst-tcp"))
     # steady state: nothing but timers
     add("steady", 1, [], 3600)
     add("steady2", 2, [], 5200)
@@ -54,6 +56,10 @@ def scenarios(seed, n_random):
     add("backpressure-both", 10, [S(300, "block-a2i"), S(310, "block-i2a"), S(350, "acc-burst"), S(360, "ini-burst"), S(1500, "unblock-a2i"),
                                   S(1600, "unblock-i2a")], 5200, clean=True)
     add("burst-free", 1, [S(300, "ini-burst"), S(300, "acc-burst")], 2600, clean=True)
+    add("burst-tcp", 1, [S(300, "ini-burst"), S(300, "acc-burst-reuse")], 2600, clean=True)
+    # retransmission on request in the middle of traffic: what follows is numbered on from where the first transmissions stopped
+    add("resend-then-traffic", 2, [S(200, "acc-send"), S(250, "acc-send"), S(300, "ini-send"), S(400, "ini-askresend"), S(600, "acc-send"), S(650, "acc-send"),
+                                   S(700, "acc-askresend"), S(900, "ini-send"), S(1000, "ini-send")], 2000)
     # the same message object sent again and again while earlier copies are still queued
     add("burst-reuse", 1, [S(300, "ini-burst-reuse"), S(300, "acc-burst-reuse")], 2600, clean=True)
     add("backpressure-reuse", 10, [S(300, "block-i2a"), S(305, "block-a2i"), S(350, "ini-burst-reuse"), S(360, "acc-burst-reuse"), S(1200, "unblock-i2a"),
@@ -173,7 +179,7 @@ def framing_records(d, out):
             last = (k + W >= max(len(sent), len(dl))) and (k + W >= max(len(hand), len(written)))
             recs.append(dict(k="frame", id="%s/%s-to-%s@%d" % (sid, frm, other, k), role="acceptor" if other == "acc" else "initiator", conn=0,
                              sent=sent[k:] if last else sent[k:k + W], chunks=[o["chunks"]], delivered=dl[k:] if last else dl[k:k + W],
-                             handoff=hand[k:] if last else hand[k:k + W], written=written[k:] if last else written[k:k + W], overlap=False))
+                             handoff=hand[k:] if last else hand[k:k + W], written=written[k:] if last else written[k:k + W], overlap=False, writeFault=False))
             if last:
                 break
             k += W
